@@ -9,6 +9,7 @@ import (
 	"strconv"
 	"strings"
 	"sync"
+	"time"
 
 	connect "github.com/bufbuild/connect-go"
 	"google.golang.org/protobuf/types/known/emptypb"
@@ -502,6 +503,7 @@ func streamIcpt(c *Ctx) {
 	c.Note("all interceptor lists over {1,2,3,nil} up to length %d; all compositions into consecutive groups for lists up to 4; %d random nestings (depth<=3) per list", maxLen, reps)
 	icptSharedAndMixedProbes(c)
 	doneContextChainProbe(c, "icpt-order")
+	doneContextClientProbe(c)
 	icptValueTypeProbe(c)
 	icptGroupShapeProbes(c)
 	// slices with spare capacity / sub-slices of one backing array (aliasing hazards)
@@ -908,6 +910,54 @@ func doneContextChainProbe(c *Ctx, key string) {
 			c.Count("done-context-chain")
 			if got != want {
 				c.Fail(key, fmt.Sprintf("%s unary request, %s, handler with two interceptors", proto, how), got, "every interceptor wraps each dispatched call exactly once, also a call whose context is already over: want "+want)
+			}
+		}
+	}
+}
+
+// doneContextClientProbe: the same on the client - a call of any kind made with a context that
+// is already over still goes through every interceptor, in order, exactly once (round 9, C16-ml).
+func doneContextClientProbe(c *Ctx) {
+	h := connect.NewUnaryHandler("/s/m", func(ctx context.Context, r *connect.Request[emptypb.Empty]) (*connect.Response[emptypb.Empty], error) {
+		return connect.NewResponse(&emptypb.Empty{}), nil
+	})
+	for _, proto := range []string{"connect", "grpc", "grpcweb"} {
+		for _, kind := range []string{"unary", "client", "server", "bidi"} {
+			for _, how := range []string{"cancelled", "expired"} {
+				log := &eventLog{}
+				cl := connect.NewClient[emptypb.Empty, emptypb.Empty](&inprocClient{h: h}, "http://h/s/m",
+					append(protoOptsPB(proto), connect.WithInterceptors(&logIcpt{id: 1, log: log}), connect.WithInterceptors(&logIcpt{id: 2, log: log}, &logIcpt{id: 3, log: log}))...)
+				ctx, cancel := context.WithCancel(context.Background())
+				if how == "expired" {
+					ctx, cancel = context.WithDeadline(context.Background(), time.Now().Add(-time.Second))
+				}
+				cancel()
+				switch kind {
+				case "unary":
+					_, _ = cl.CallUnary(ctx, connect.NewRequest(&emptypb.Empty{}))
+				case "client":
+					st := cl.CallClientStream(ctx)
+					_ = st.Send(&emptypb.Empty{})
+					_, _ = st.CloseAndReceive()
+				case "server":
+					st, err := cl.CallServerStream(ctx, connect.NewRequest(&emptypb.Empty{}))
+					if err == nil {
+						for st.Receive() {
+						}
+						_ = st.Close()
+					}
+				default:
+					st := cl.CallBidiStream(ctx)
+					_ = st.Send(&emptypb.Empty{})
+					_ = st.CloseRequest()
+					_, _ = st.Receive()
+					_ = st.CloseResponse()
+				}
+				got := "interceptors in=" + idsOf(log.events, "in")
+				c.Count("done-context-client")
+				if got != "interceptors in=1,2,3" {
+					c.Fail("icpt-order", fmt.Sprintf("%s %s client call with a context that is already over (%s), three interceptors in two groups", proto, kind, how), got, "every interceptor wraps each call exactly once, first declared outermost, also a call whose context is already over: want interceptors in=1,2,3")
+				}
 			}
 		}
 	}
